@@ -392,12 +392,17 @@ impl Format {
         };
 
         if let Some(weekday) = weekday {
-            // Check that the weekday is correct
-            if weekday != epoch.weekday() {
+            // Check that the weekday is correct: it must be that of the date that was parsed, i.e.
+            // of the calendar of the epoch's own time scale (as printed by the formatter).
+            let expected = Epoch::from_tai_duration(
+                epoch.duration + epoch.time_scale.gregorian_epoch_offset(),
+            )
+            .weekday();
+            if weekday != expected {
                 return Err(HifitimeError::Parse {
                     source: ParsingError::WeekdayMismatch {
                         found: weekday,
-                        expected: epoch.weekday(),
+                        expected,
                     },
                     details: "weekday and day number do not match",
                 });
